@@ -837,6 +837,7 @@ func c12GenCuts(r *rng, L int) []int {
 // ---------------------------------------------------------------------------
 
 func propC12(r *Run) {
+	defer c12CliRepair(r)
 	thorough := r.tier == "thorough"
 	r.exhaustive = true
 
